@@ -78,8 +78,12 @@ def gen_stmts(d, lists, scal):
             op = d.choice([">", ">=", "!=", "<"])
             out.append(["foreach", n, "i", None, [["if", [[["bin", ">", ["iv", "i"], L(0)],
                                                           [["expr", ["bin", op, el(n, ["iv", "i"]), el(n, ["bin", "-", ["iv", "i"], L(1)])]]]]], None]]])
-        elif r < 58:
+        elif r < 54:
             out.append(["foreach", n, "i", "it", [["expr", ["bin", d.choice([">=", "!="]), ["it", "it"], ["iv", "i"]]]]])
+        elif r < 58:
+            # an arithmetic expression on the left of a subscript
+            out.append(["foreach", n, "i", None, [["expr", ["bin", d.choice(["<", "<=", ">", ">="]),
+                                                            ["bin", d.choice(["+", "^"]), ["f", d.choice(scal)], L(d.randint(0, 2))], el(n, ["iv", "i"])]]]])
         elif r < 66 and len(lists) > 1:
             m = [x for x in names if x != n][0]
             out.append(["foreach", n, None, "p", [["foreach", m, None, "q", [["expr", ["bin", "!=", ["it", "p"], ["it", "q"]]]]]]])
